@@ -71,9 +71,13 @@ def _partition_spec():
         od, pd = Val.id(env["overdue"].t), Val.id(env["pending"].t)
         dl = deadline(st, job)
         was_done = any(a == "job.future.done()" and b for a, b in st.decisions[-3:])
+        mine = st.decisions[len(ctx["head"].decisions):] if ctx.get("head") is not None else st.decisions[-3:]
+        seen_not_done = any(a == "job.future.done()" and not b for a, b in mine)
         out = [("each job goes to at most one of the two lists", z3.BoolVal(len(apps) <= 1))]
         if apps:
             e = apps[0]
+            out.append(("a job is kept (for a cancel attempt now or later) only after its future was seen NOT done in this scan: a future that already "
+                        "finished - or was cancelled by its user - gets no cancel attempt and is never counted as a timeout", z3.BoolVal(seen_not_done)))
             out.append(("a job is classified by its own deadline: overdue iff deadline < now, pending iff deadline >= now",
                         z3.And(e.args[0] == job, z3.Or(z3.And(e.recv == od, dl < now), z3.And(e.recv == pd, dl >= now)))))
         else:
@@ -284,15 +288,18 @@ def _post_do_cancel(engine, st, ctx, out):
            z3.And(z3.BoolVal(not isinstance(out, Raise) and len(calls) == 1), calls[0].args[0] == ctx["fut"] if calls else False), ["C09", "C18"])]
     truthy = any(a == "cancel_result" and b for a, b in st.decisions)
     cl.append(("TIMEOUT counter counts exactly the cancel attempts that succeeded", "PC", z3.BoolVal(len(incs) == (1 if truthy else 0)), ["C20"]))
+    from .base import label_key
+    cl.append(("... by going UP by one, on this executor's own child", "PC",
+               z3.And([z3.And(z3.BoolVal(e.meth == "inc"), e.args[1] == 1, e.args[0] == label_key(engine, st, None, st.get("_name", ctx["sid"]))) for e in incs] + [z3.BoolVal(True)]), ["C20"]))
     return cl
 
 
 UNITS = [
-    Unit("TimeoutExecutor._partition_jobs", "timeout.TimeoutExecutor._partition_jobs", ["C09", "C18"], _setup_partition, _post_partition,
+    Unit("TimeoutExecutor._partition_jobs", "timeout.TimeoutExecutor._partition_jobs", ["C09", "C18", "C20"], _setup_partition, _post_partition,
          cfg=_cfg_partition, self_cls="TimeoutExecutor"),
     Unit("TimeoutExecutor._job_loop_iter", "timeout.TimeoutExecutor._job_loop_iter", ["C09", "C03", "C11", "C12", "C18"], _setup_iter, _post_iter,
          cfg=_cfg_iter, self_cls="TimeoutExecutor"),
-    Unit("TimeoutExecutor.submit_timeout", "timeout.TimeoutExecutor.submit_timeout", ["C09", "C01", "C03", "C11"], _setup_submit, _post_submit,
+    Unit("TimeoutExecutor.submit_timeout", "timeout.TimeoutExecutor.submit_timeout", ["C09", "C01", "C03", "C11", "C12", "C20"], _setup_submit, _post_submit,
          cfg=_cfg_submit, self_cls="TimeoutExecutor"),
     Unit("TimeoutExecutor._on_future_done", "timeout.TimeoutExecutor._on_future_done", ["C09", "C03", "C18"], _setup_on_done, _post_on_done,
          cfg=_cfg, self_cls="TimeoutExecutor"),
